@@ -196,6 +196,7 @@ def main():
         run_cases(chk, build(chk, 96), family=2, with_gen=have_model, label="[family 2] ")
     equivalences(chk, 24 if chk.tier == "quick" else 240)
     float_linearised(chk, 36 if chk.tier == "quick" else 360)
+    analysis.narrow_ints(chk, 4 if chk.tier == "quick" else 24, "the delta-method test of the raw observations")
     equivalence_under_config(chk, 24 if chk.tier == "quick" else 240)
     chk.cov["rule"] = ("random rational numerator/denominator data (2..28 rows per variant, balanced and 1:many, "
                        "any correlation), all 12 option cells, random confidence levels; equivalences Mean / "
